@@ -104,6 +104,8 @@ def apply_op(mab, op):
             c = op.get("c")
             if c is not None and not op.get("ctypeok", True):
                 c = tuple(tuple(x) for x in c)
+            if getattr(mab, "_verif_reward_dtype", None) and op.get("typeok", True):
+                r = S.reward_container({"reward_dtype": mab._verif_reward_dtype}, r)
             if getattr(mab, "_verif_as_pandas", False) and op.get("typeok", True) and op.get("ctypeok", True) \
                     and len(d) > 0 and len(d) == len(r) and all(x is not None for x in r):
                 import pandas as pd
